@@ -1,0 +1,18 @@
+//go:build verif
+
+// Contracts for the Tendermint light client (comment-only; read by /verif's tibcvc).
+package types
+
+//@ // C14: Expired <==> the newest trusted state's time plus the trusting period is not after the block time
+//@ // (cometbft's convention: the boundary instant counts as expired); Unknown when that state is missing or not a
+//@ // Tendermint consensus state.
+//@ func (ClientState).Status(ctx, clientStore, cdc) (result)
+//@   props C14
+//@   let c    = clientOf(clientStore)
+//@   let o    = tibc[consState(c, self.LatestHeight.RevisionNumber, self.LatestHeight.RevisionHeight)]
+//@   let obj  = clienttypes.consDecode(val(o))
+//@   let ok   = present(o) && clienttypes.decodesCons(val(o)) && isa(obj, ConsensusState)
+//@   let ts   = as(obj, ConsensusState).Timestamp
+//@   ensures unknown: !ok ==> result == exported.Unknown
+//@   ensures expired: ok ==> (result == exported.Expired <==> ts + dur(self.TrustingPeriod) <= now())
+//@   ensures active:  ok ==> (result == exported.Active  <==> ts + dur(self.TrustingPeriod) > now())
